@@ -101,9 +101,17 @@ fn write_files(dir: &Path, files: &str) -> Option<()> {
 }
 
 fn write_config(dir: &Path, zones: &str) -> Option<PathBuf> {
-    let mut text = String::new();
+    write_config_with(dir, zones, "", "")
+}
+
+/// `preamble` = top-level keys (before any table), `extra_zones` = further `[[zones]]` tables
+fn write_config_with(dir: &Path, zones: &str, preamble: &str, extra_zones: &str) -> Option<PathBuf> {
+    let mut text = String::from(preamble);
+    text.push_str(extra_zones);
     if zones == "-" {
-        text.push_str("zones = []\n");
+        if extra_zones.is_empty() {
+            text.push_str("zones = []\n");
+        }
     } else {
         for z in zones.split(',') {
             let [n, c, p] = z.split(':').collect::<Vec<_>>()[..] else { return None };
@@ -207,8 +215,288 @@ pub fn run(op: &str, a: &[&str]) -> Option<String> {
             let h = h.to_string();
             guarded(move || run_history(&h).unwrap_or_else(|| "bad-op".into()))
         }
+        ("daemon", [h]) => {
+            let h = h.to_string();
+            guarded(move || match run_daemon_history(&h) {
+                Ok(r) => r,
+                Err(why) => {
+                    eprintln!("daemon scenario not synchronised ({why}): {h}");
+                    "discarded".into()
+                }
+            })
+        }
+        ("daemonskip", [_]) => "discarded".into(),
         _ => return None,
     })
+}
+
+// ------------------------------------------------------------------------------------------
+// daemon-level scenarios: the real `quandaryd` process, SIGHUP, UDP
+// ------------------------------------------------------------------------------------------
+//
+// `daemon <history>` (same history syntax as `rl`, class IN only, no duplicated zone): the
+// `quandaryd` binary of the repository under test is started on a loopback port with the
+// configuration and files of step 0; every further step edits the files / the configuration and
+// sends SIGHUP. A sentinel zone `qvh-sync.` that the case does not mention is configured in every
+// step and gets a new SOA serial each time: the daemon swaps in a whole catalog atomically, so
+// once the sentinel answers with the step's serial the (re)load has been applied. After each
+// step every zone name configured anywhere in the history is queried (SOA, IN) over UDP:
+//
+//   REFUSED → `-`   SERVFAIL → `F`   an SOA in the answer or authority section → `L<serial>`
+//
+// i.e. the state of the entry that answers the name (longest match). Result `ok s1,…,sn;…`.
+// Timing never decides a verdict: all waits are bounded polls with retries; a history that
+// cannot be synchronised (daemon did not start, sentinel never appeared, a query got no answer)
+// is reported as `daemonskip <history>` / `discarded` and counted, not compared.
+
+use std::net::UdpSocket;
+use std::process::{Child, Command, Stdio};
+use std::sync::OnceLock;
+use std::time::Instant;
+
+const SENTINEL: &str = "qvh-sync.";
+
+struct Daemon(Child);
+impl Drop for Daemon {
+    fn drop(&mut self) {
+        let _ = self.0.kill();
+        let _ = self.0.wait();
+    }
+}
+
+/// Builds (once per process) the `quandaryd` binary of the repository under test into a target
+/// directory under <framework>/work and returns a private copy of it.
+fn daemon_binary() -> Option<&'static PathBuf> {
+    static BIN: OnceLock<Option<PathBuf>> = OnceLock::new();
+    BIN.get_or_init(|| {
+        let repo = env!("QVH_REPO");
+        let work = Path::new(env!("QVH_ROOT")).join("work");
+        let tdir = work.join("quandaryd-target").join(if repo == "/repo" { "repo" } else { "other" });
+        fs::create_dir_all(&tdir).ok()?;
+        // one build at a time per target directory (concurrent checks)
+        let lock = fs::File::create(tdir.join(".qvh-lock")).ok()?;
+        lock.lock().ok()?;
+        let out = Command::new("cargo")
+            .args(["build", "--offline", "-q", "--bin", "quandaryd", "--target-dir"])
+            .arg(&tdir)
+            .current_dir(repo)
+            .env("CARGO_NET_OFFLINE", "true")
+            .stdin(Stdio::null())
+            .output()
+            .ok()?;
+        if !out.status.success() {
+            eprintln!("cannot build quandaryd of {repo}: {}", String::from_utf8_lossy(&out.stderr));
+            return None;
+        }
+        let built = tdir.join("debug").join("quandaryd");
+        let bytes = fs::read(&built).ok()?;
+        use sha2::Digest;
+        let h = sha2::Sha256::digest(&bytes);
+        // `qvh-` prefix: bin/check prunes such files from work/ when they are old
+        let copy = work.join(format!("qvh-daemon-{}", hex(&h[..8])));
+        if !copy.exists() {
+            let tmp = work.join(format!("qvh-daemon-tmp{}", std::process::id()));
+            fs::write(&tmp, &bytes).ok()?;
+            use std::os::unix::fs::PermissionsExt;
+            fs::set_permissions(&tmp, fs::Permissions::from_mode(0o755)).ok()?;
+            fs::rename(&tmp, &copy).ok()?;
+        }
+        let _ = lock.unlock();
+        Some(copy)
+    })
+    .as_ref()
+}
+
+/// one SOA/IN query; `None` = no (decodable) response after three tries
+fn query_state(port: u16, qname: &[u8]) -> Option<String> {
+    let sock = UdpSocket::bind("127.0.0.1:0").ok()?;
+    sock.set_read_timeout(Some(Duration::from_millis(400))).ok()?;
+    static QID: AtomicU64 = AtomicU64::new(1);
+    for _ in 0..3 {
+        let id = QID.fetch_add(1, Ordering::Relaxed) as u16;
+        let mut msg = crate::dns::header(id, 0, 1, 0, 0, 0);
+        msg.extend(crate::dns::question(qname, 6, 1));
+        if sock.send_to(&msg, ("127.0.0.1", port)).is_err() {
+            continue;
+        }
+        let mut buf = [0u8; 1500];
+        let deadline = Instant::now() + Duration::from_millis(400);
+        while Instant::now() < deadline {
+            let Ok((n, _)) = sock.recv_from(&mut buf) else { break };
+            let Some(d) = crate::dns::decode_message(&buf[..n]) else { continue };
+            if d.id != id || d.flags & 0x8000 == 0 {
+                continue; // a late answer to an earlier try
+            }
+            let soa = d.an.iter().chain(d.ns.iter()).find(|r| r.ty == 6 && r.rdata.len() >= 20);
+            return Some(match (d.flags & 0xf, soa) {
+                (5, _) => "-".into(),
+                (2, _) => "F".into(),
+                (_, Some(r)) => {
+                    let p = r.rdata.len() - 20;
+                    format!("L{}", u32::from_be_bytes([r.rdata[p], r.rdata[p + 1], r.rdata[p + 2], r.rdata[p + 3]]))
+                }
+                (rc, None) => format!("?{rc}"),
+            });
+        }
+    }
+    None
+}
+
+fn free_port() -> Option<u16> {
+    // a port that is free for UDP *and* TCP right now (the daemon binds both)
+    for _ in 0..20 {
+        let u = UdpSocket::bind("127.0.0.1:0").ok()?;
+        let port = u.local_addr().ok()?.port();
+        if std::net::TcpListener::bind(("127.0.0.1", port)).is_ok() {
+            return Some(port);
+        }
+    }
+    None
+}
+
+fn write_sentinel(dir: &Path, step: usize) -> Option<()> {
+    let path = dir.join("sync.zone");
+    fs::write(
+        &path,
+        format!(
+            "{SENTINEL} 3600 IN SOA ns.outside. h.{SENTINEL} {} 3600 600 86400 60\n{SENTINEL} 3600 IN NS ns.outside.\n",
+            step + 1
+        ),
+    )
+    .ok()?;
+    let t = SystemTime::UNIX_EPOCH + Duration::from_secs(2_000_000_000 + step as u64);
+    fs::OpenOptions::new().write(true).open(&path).ok()?.set_modified(t).ok()
+}
+
+fn await_sentinel(port: u16, step: usize, child: &mut Child, limit: Duration) -> Result<(), String> {
+    let want = format!("L{}", step + 1);
+    let sname = Name::try_from_uncompressed_all(b"\x08qvh-sync\x00").unwrap();
+    let deadline = Instant::now() + limit;
+    loop {
+        if query_state(port, sname.wire_repr()).as_deref() == Some(&want) {
+            return Ok(());
+        }
+        if let Ok(Some(st)) = child.try_wait() {
+            return Err(format!("quandaryd exited ({st})"));
+        }
+        if Instant::now() >= deadline {
+            return Err(format!("sentinel did not reach step {step}"));
+        }
+        std::thread::sleep(Duration::from_millis(20));
+    }
+}
+
+fn run_daemon_history(h: &str) -> Result<String, String> {
+    let bin = daemon_binary().ok_or("no quandaryd binary")?;
+    let bad = || "malformed history".to_string();
+    // keys: every name configured anywhere (class IN only), in order of first appearance
+    let mut keys: Vec<Box<Name>> = Vec::new();
+    for step in h.split('/') {
+        let (z, _) = step.split_once('@').ok_or_else(bad)?;
+        if z == "-" {
+            continue;
+        }
+        let mut seen: Vec<Box<Name>> = Vec::new();
+        for zc in z.split(',') {
+            let f: Vec<&str> = zc.split(':').collect();
+            if f.len() != 3 || f[1] != "1" {
+                return Err("daemon scenarios are class IN only".into());
+            }
+            let n = name_of(f[0]).ok_or_else(bad)?;
+            if seen.iter().any(|k| **k == *n) {
+                return Err("duplicated zone (configuration error): cannot be synchronised".into());
+            }
+            seen.push(n.clone());
+            if !keys.iter().any(|k| **k == *n) {
+                keys.push(n);
+            }
+        }
+    }
+    let sentinel_cfg = format!("[[zones]]\nname = \"{SENTINEL}\"\npath = \"sync.zone\"\n\n");
+    let mut last_err = String::new();
+    'attempt: for _ in 0..3 {
+        let scratch = Scratch::new();
+        let dir = &scratch.0;
+        let port = free_port().ok_or("no free port")?;
+        let preamble = format!("bind = \"127.0.0.1:{port}\"\n\n");
+        let mut daemon: Option<Daemon> = None;
+        let mut out: Vec<String> = Vec::new();
+        for (si, step) in h.split('/').enumerate() {
+            let (z, f) = step.split_once('@').ok_or_else(bad)?;
+            write_files(dir, f).ok_or_else(bad)?;
+            write_sentinel(dir, si).ok_or("cannot write the sentinel")?;
+            let cfg = write_config_with(dir, z, &preamble, &sentinel_cfg).ok_or_else(bad)?;
+            match daemon.as_mut() {
+                None => {
+                    let child = Command::new(bin)
+                        .arg("run")
+                        .arg("--config")
+                        .arg(&cfg)
+                        .stdin(Stdio::null())
+                        .stdout(Stdio::null())
+                        .stderr(Stdio::null())
+                        .spawn()
+                        .map_err(|e| format!("cannot start quandaryd: {e}"))?;
+                    daemon = Some(Daemon(child));
+                    if let Err(e) = await_sentinel(port, si, &mut daemon.as_mut().unwrap().0, Duration::from_secs(15)) {
+                        last_err = e; // e.g. the port was taken in the meantime: try again elsewhere
+                        continue 'attempt;
+                    }
+                }
+                Some(d) => {
+                    let ok = Command::new("kill")
+                        .arg("-HUP")
+                        .arg(d.0.id().to_string())
+                        .status()
+                        .map_or(false, |s| s.success());
+                    if !ok {
+                        return Err("cannot send SIGHUP".into());
+                    }
+                    await_sentinel(port, si, &mut d.0, Duration::from_secs(15))?;
+                }
+            }
+            let mut states = Vec::new();
+            for k in &keys {
+                states.push(query_state(port, k.wire_repr()).ok_or("a query got no answer")?);
+            }
+            out.push(states.join(","));
+        }
+        return Ok(format!("ok {}", out.join(";")));
+    }
+    Err(last_err)
+}
+
+fn emit_daemon(em: &mut Emitter, h: &str) {
+    let r = run("daemon", &[h]).unwrap();
+    if r == "discarded" {
+        em.emit(&format!("daemonskip {h}"), &r);
+    } else {
+        em.emit(&format!("daemon {h}"), &r);
+    }
+}
+
+fn gen_daemon(rng: &mut Rng, em: &mut Emitter) {
+    if daemon_binary().is_none() {
+        em.emit("daemonskip build", "discarded");
+        return;
+    }
+    let a = wire(&[b"a"]);
+    let b = wire(&[b"b", b"a"]);
+    let e = wire(&[b"e"]);
+    // latest good data: a. v1 at start-up, v2 by the first SIGHUP, broken at the second, deleted at
+    // the third, fixed (v5) at the fourth; e. is added after start-up, then breaks
+    emit_daemon(em, &format!(
+        "{a}:1:1@1:10:ok.1.{a}.1/{a}:1:1,{e}:1:3@1:11:ok.2.{a}.1,3:11:ok.3.{e}.1/{a}:1:1,{e}:1:3@1:12:bad,3:12:inv.{e}.1/{a}:1:1,{e}:1:3@3:12:inv.{e}.1/{a}:1:1,{e}:1:3@1:14:ok.5.{a}.1,3:12:inv.{e}.1"));
+    // the D12 shape: a never-loaded failing child under a loaded parent, later fixed, then removed
+    emit_daemon(em, &format!(
+        "{a}:1:1@1:10:ok.1.{a}.1/{a}:1:1,{b}:1:2@1:10:ok.1.{a}.1/{a}:1:1,{b}:1:2@1:10:ok.1.{a}.1,2:12:ok.2.{b}.1/{a}:1:1,{b}:1:2@1:13:bad,2:13:bad/{a}:1:1@1:13:bad,2:13:bad"));
+    // unchanged files, touched files, a zone moved to another path
+    emit_daemon(em, &format!(
+        "{a}:1:1@1:10:ok.1.{a}.1,2:10:ok.2.{a}.1/{a}:1:1@1:10:ok.1.{a}.1,2:10:ok.2.{a}.1/{a}:1:2@1:10:ok.1.{a}.1,2:10:ok.2.{a}.1/{a}:1:2@1:10:ok.1.{a}.1,2:11:ok.2.{a}.1/-@-/{a}:1:1@1:10:ok.1.{a}.1"));
+    for _ in 0..60 {
+        let c = random_history_mode(rng, true, true);
+        emit_daemon(em, c.strip_prefix("rl ").unwrap());
+    }
 }
 
 // ------------------------------------------------------------------------------------------
@@ -250,6 +538,12 @@ struct F {
 /// zone in class CH). `sound` = files only change content together with a newer mtime (the
 /// environment assumption under which the spec column constrains the case).
 fn random_history(rng: &mut Rng, sound: bool) -> String {
+    random_history_mode(rng, sound, false)
+}
+
+/// `daemon` = only class IN, no duplicated zone (the daemon-level scenarios query over UDP in
+/// class IN and synchronise on a sentinel zone that a configuration error would not reload)
+fn random_history_mode(rng: &mut Rng, sound: bool, daemon: bool) -> String {
     let universe: [(&[&'static [u8]], &[&'static [u8]], u16); 6] = [
         (&[b"a"], &[b"A"], 1),
         (&[b"b", b"a"], &[b"B", b"a"], 1),
@@ -258,7 +552,7 @@ fn random_history(rng: &mut Rng, sound: bool) -> String {
         (&[b"e"], &[b"E"], 1),
         (&[b"a"], &[b"a"], 3),
     ];
-    let n = rng.range(2, 6);
+    let n = if daemon { rng.range(2, 5) } else { rng.range(2, 6) };
     let mut zs: Vec<Z> = universe[..n]
         .iter()
         .enumerate()
@@ -325,7 +619,7 @@ fn random_history(rng: &mut Rng, sound: bool) -> String {
                 format!("{}:{}:{}", wire(nm), z.class, z.path)
             })
             .collect();
-        if rng.chance(1, 15) && !zl.is_empty() {
+        if !daemon && rng.chance(1, 15) && !zl.is_empty() {
             // a duplicated zone: config.rs must reject the whole configuration
             let d = rng.pick(&zl).clone();
             zl.push(d);
@@ -440,5 +734,10 @@ pub fn gen(rng: &mut Rng, thorough: bool, em: &mut Emitter) {
     for _ in 0..n {
         let c = random_history(rng, false);
         emit(em, c);
+    }
+    // 3. daemon-level scenarios (thorough tier and the enlarged search only: they cost a build of
+    //    the real `quandaryd` and about half a second each)
+    if thorough {
+        gen_daemon(rng, em);
     }
 }
